@@ -573,6 +573,16 @@ def r04d(ctx):
     ctx.floor('R04d', 'searchable-layer cost sites', searchable, 1)
     ctx.floor('R04d', 'fixed-layer cost sites', fixed, 1)
     lookup_key_rule(ctx, 'R04d', 'PIT')
+    # ... and the lookup answers with the function of the pattern the layer satisfies: the
+    # depthwise constraint is the library-wide depthwise definition (in == out == groups) and
+    # every built-in constraint means its pattern on a grid of concrete layers (C15's rules) --
+    # an ordinary convolution taken for a depthwise one is priced by its input channels only
+    from . import c15
+    before = len(ctx.obligations)
+    c15.r15d(ctx)
+    c15.r15f(ctx)
+    for o in ctx.obligations[before:]:
+        o.rule = 'R04j'
 
 
 def r04f(ctx):
